@@ -1,6 +1,6 @@
 (* Properties_C07.v — obligations of property C07 (progressive correction only ever improves a
    character cell). *)
-Require Import ObsRun Lemmas_TextProps Lemmas_Prog Lemmas_ObsText.
+Require Import ObsRun Lemmas_TextProps Lemmas_Prog Lemmas_ObsText Lemmas_Converge.
 Local Open Scope Z_scope.
 
 (* one reception under progressive correction: the level of the cell never rises, and if the cell
@@ -70,9 +70,27 @@ Theorem C07_ps_converges : forall conv lut tgt gs s, Inv conv s -> prog s PS = t
 Proof. exact ps_converges. Qed.
 Print Assumptions C07_ps_converges.
 
-(* the convergence theorem is stated for PS; PTYN and RT behave alike through C06_ptyn / C06_rt and
-   C07_reception (not restated).  The per-step observer obs_C07 for all three texts is evaluated on
-   the model (Example) and on the library (check). *)
+(* ... and for EVERY text (PS, PTYN, either RadioText buffer).  ef_write g sl i is the byte that an
+   error-free reception of group g (error-free B and carrying block) delivers to cell i of text sl,
+   read off writes_of g.  If text sl is progressive, the error-free receptions of the stream are
+   consistent with tgt, and the stream never switches the A/B flag (every type-2 group with an
+   error-free block B carries f0, and the flag last seen is f0 or none — irrelevant for PS / PTYN),
+   then every cell that holds its target at level 0 already, or is delivered error-free at least once,
+   holds (tgt i, 0) at the end, whatever else the stream contains. *)
+Theorem C07_every_text_converges : forall conv lut sl tgt f0 gs s, Inv conv s -> prog s (tid_of sl) = true ->
+  Forall wf_group gs -> Forall (consistent_sl conv sl tgt) gs -> Forall (one_flag f0) gs ->
+  (last_rt s = -1 \/ last_rt s = f0) ->
+  forall i, (i < cap sl)%nat ->
+  (cell_of sl s i = (tgt i, 0) \/ existsb (fun g => delivers_sl sl g i) gs = true) ->
+  cell_of sl (feed_all conv lut s gs) i = (tgt i, 0).
+Proof. exact text_converges. Qed.
+Print Assumptions C07_every_text_converges.
+Example C07_converge_example :     (* 2A, flag A, address 1: cells 4..7 receive "abcd" error-free *)
+  ef_write (mkgroup 1 8193 24930 25444 0 0 0 0) TRT0 5 = Some 98
+  /\ delivers_sl TRT0 (mkgroup 1 8193 24930 25444 0 0 0 0) 7 = true
+  /\ ef_write (mkgroup 1 8193 24930 25444 0 0 0 1) TRT0 7 = None.     (* corrected D: no error-free delivery *)
+Proof. vm_compute. repeat split. Qed.
+
 (* THE OBSERVER: with progressive correction on for a text, in every call that is not a reset and
    not an A/B switch of that buffer, no level rises and a cell is rewritten only by a reception
    addressed to it whose weighted level becomes the cell's level *)
